@@ -33,6 +33,6 @@ def jobs(tier, seed):
     for nm, kind, pre, suf, fl in tmpl:
         J += deepen(P, G, 'tmpl-' + nm, lambda n, kind=kind, pre=pre, suf=suf, fl=fl: sc(kind, n, prefix=pre, suffix=suf, api='cfg', fl=fl, cap=2),
                     range(1, T(tier, 4, 6) + 1), T(tier, 80, 600), f'{kind} {pre!r} + ' + '{n} symbolic bytes + ' + f'{suf!r}', 3)
-    J += sliding_families(P, G, tier, step=T(tier, 5, 1))
+    J += sliding_families(P, G, tier, step=T(tier, 3, 1))
     J += neighbourhood_families(P, G, tier)
     return J
